@@ -6,7 +6,7 @@
 //
 // header: {"M":[mutex...], "P":{party:"plain"|"co"}, "slot":{party:{mutex:slot id}}, "through":[party...],
 //          "form":{party:"cb"|"sub"}, "rel":{party:"discard"|"keep"|"reset"|"dtor"|"twice"|"await"}, "probe":"dtor"|"release"}
-// step labels: Try(p,m) Lock(p,m) Block(p,m) Release(p,m) Probe(m)
+// step labels: Try(p,m) Lock(p,m) Ask(p,m) Suspend(p,m) Block(p,m) Release(p,m) Probe(m)
 // projection: public part  {"st":{p:{m:"idle"|"wait"|"hold"}}, "got":[[p,m]...], "res":.., "co":{p:"cmd"|"lock"}, "slot":{id:..}}
 //             private part {"req":{m:..}, "chain":{m:[..]}, "queue":{m:[..]}}  and the mutex a slot refers to
 // Build levels (a representation change must degrade the projection, not break the check):
@@ -324,11 +324,12 @@ static void run(const Scenario &sc, Reporter &rep) {
             auto pit = w.party.find(p);
             if (pit == w.party.end() || !w.mx.count(m)) { rep.error(k, "unknown party / mutex"); bad = true; break; }
             Party &P = pit->second;
-            const std::string op = s.name == "Try" ? "try" : s.name == "Lock" ? "lock" : s.name == "Release" ? "release" : s.name == "Block" ? "block" : "";
+            const std::string op = s.name == "Try" ? "try" : s.name == "Lock" ? "lock" : s.name == "Release" ? "release" : s.name == "Block" ? "block"
+                                   : s.name == "Ask" ? "ask" : s.name == "Suspend" ? "suspend" : "";
             if (op.empty()) { rep.error(k, "unknown action"); bad = true; break; }
-            if (op == "lock") { w.requesting = p + "@" + m; w.st[{p, m}] = "wait"; }
+            if (op == "lock" || op == "suspend") { w.requesting = p + "@" + m; w.st[{p, m}] = "wait"; }
             if (P.co) {
-                if (op == "block") { rep.error(k, "a coroutine party does not block"); bad = true; break; }
+                if (op == "block" || op == "ask" || op == "suspend") { rep.error(k, "a coroutine party does not block"); bad = true; break; }
                 if (!command(w, P, op, m)) { rep.diverge(k, "the coroutine of party " + p + " is not waiting for a command got=" + project(w).dump()); bad = true; break; }
             } else if (op == "try") {
                 do_try(w, p, m);
@@ -338,6 +339,15 @@ static void run(const Scenario &sc, Reporter &rep) {
                 r.awt.emplace(w.m(m).lock());
                 bool waits = !r.awt->await_ready() && (P.form == "sub" ? r.awt->subscribe(&r.sub) : r.awt->await_suspend(&on_grant_cb, &r));
                 if (!waits) on_grant_cb(&*r.awt, &r);
+            } else if (op == "ask") {
+                // the request as the two calls it consists of: await_ready() now, await_suspend() / subscribe() in a later step
+                Req &r = w.reqs[{p, m}];
+                r.awt.emplace(w.m(m).lock());
+                if (r.awt->await_ready()) on_grant_cb(&*r.awt, &r); else w.st[{p, m}] = "asked";
+            } else if (op == "suspend") {
+                Req &r = w.reqs[{p, m}];
+                bool waits = P.form == "sub" ? r.awt->subscribe(&r.sub) : r.awt->await_suspend(&on_grant_cb, &r);
+                if (!waits) on_grant_cb(&*r.awt, &r);      // not registered: the caller owns the mutex, nobody else tells it
             } else if (op == "block") {
                 if (P.form == "sub") {
                     cocls::mutex::ownership o = w.m(m).lock().wait();
